@@ -29,7 +29,12 @@ def gen_config(rng, k):
     pod = fmt.startswith("pod")
     year, doy = (2000, 322) if pod else (2002, 187)
     per = 500 if fmt.endswith("Gac") else 166
-    kind = rng.choice(["near-shift", "near-shift", "random-midnight", "none", "first-line", "last-line"])
+    kind = rng.choice(["near-shift", "near-shift", "random-midnight", "none", "first-line", "last-line", "year-end"])
+    if kind == "year-end":
+        # the pass starts on 31 December of a leap year (day 366) shortly before midnight, or on 1 January
+        year = 2000 if pod else 2004
+        doy = rng.choice([366, 366, 1])
+        kind_start = ydm_to_ms(year + (1 if doy == 1 else 0), doy, 0) + (86400000 - rng.randint(1, 8) * per if doy == 366 else rng.randint(0, 3) * per)
     span = (nums[-1] - nums[0]) * per
     if kind == "none":
         start = ydm_to_ms(year, doy, rng.randint(3600000, 80000000))
@@ -39,6 +44,8 @@ def gen_config(rng, k):
         start = ydm_to_ms(year, doy, 0) - span + rng.randint(-900, 900)
     elif kind == "random-midnight":
         start = ydm_to_ms(year, doy, 0) - rng.randint(0, span)
+    elif kind == "year-end":
+        start = kind_start
     else:
         c = rng.randint(1, n - 1)
         start = ydm_to_ms(year, doy, 0) - (nums[c] - nums[0]) * per + rng.randint(-1800, 1800)
